@@ -282,7 +282,15 @@ func (w *World) hook(name string, args ...any) {
 		w.lastProc = "none"
 		w.inBody.Store(false)
 	case "queue.dequeue.locked":
-		w.add(Ev{Kind: "deq", Key: args[0].(int), First: args[1].(bool), Out: w.lastProc})
+		// the hook passes values only (key, ok, peek): "the removed item was the head" is computed here,
+		// so that no user code (Key()) is evaluated in the hook's arguments when the build tag is off
+		first := false
+		if ok := args[1].(bool); ok {
+			if pk, _ := args[2].(*item); pk != nil {
+				first = pk.Key() == args[0].(int)
+			}
+		}
+		w.add(Ev{Kind: "deq", Key: args[0].(int), First: first, Out: w.lastProc})
 		w.lastProc = "none"
 		w.inBody.Store(false)
 	case "queue.close.afterCAS":
